@@ -598,6 +598,6 @@ func init() {
 		Real:       []string{"metrics (counters, histograms, bucket histograms, /metrics endpoint via http.DefaultServeMux)"},
 		Stub:       []string{"sync/atomic and sync.RWMutex of package metrics (yield points owned by the kernel)", "observer and reader tasks", "HTTP transport (httptest.ResponseRecorder)"},
 		RaceTest:   "TestRaceMetrics",
-		RunsQuick: 2500, RunsThorough: 25000, Chunk: 300,
+		RunsQuick:  2500, RunsThorough: 25000, Chunk: 300,
 	})
 }
